@@ -3,16 +3,63 @@
 use crate::dynval::*;
 use crate::sx::{parse_all, Sx};
 use crate::util::*;
-use desert::{BinaryDeserializer, BinaryInput, DeserializationContext};
+use desert::{BinaryInput, BinaryOutput, BinarySerializer, DeserializationContext};
 use std::io::{BufRead, Write};
+
+/// A user-defined codec of the kind the public push_buffer / pop_buffer API exists for: the payload is rendered into a
+/// temporary buffer, then written length-prefixed.
+struct Framed<'a>(&'a Dyn);
+impl desert::BinarySerializer for Framed<'_> {
+    fn serialize<O: BinaryOutput>(&self, ctx: &mut desert::SerializationContext<O>) -> desert::Result<()> {
+        ctx.push_buffer(Vec::new());
+        let r = self.0.serialize(ctx);
+        let payload = ctx.pop_buffer();
+        r?;
+        ctx.write_var_u32(payload.len() as u32);
+        ctx.write_bytes(&payload);
+        Ok(())
+    }
+}
+
+fn vu(mut v: u32) -> Vec<u8> {
+    let mut out = Vec::new();
+    loop {
+        if v < 128 {
+            out.push(v as u8);
+            return out;
+        }
+        out.push((v & 0x7f) as u8 | 0x80);
+        v >>= 7;
+    }
+}
 
 fn enc_line(ty: &Ty, v: &Sx) -> (String, Option<Vec<u8>>) {
     let d = build(ty, v);
+    // under a caller-pushed buffer the value's bytes are the same, on every output, and the size calculator agrees
+    let framed = desert::serialize_to_byte_vec(&Framed(&d));
+    let framed_size = desert::serialize(&Framed(&d), desert::SizeCalculator::new()).map(|sc| sc.size());
+    if let (Ok(f), Ok(plain)) = (&framed, desert::serialize_to_byte_vec(&d)) {
+        let mut want = vu(plain.len() as u32);
+        want.extend_from_slice(&plain);
+        if *f != want {
+            return (format!("entry-points-differ under-a-pushed-buffer={} plain={}", hex(f), hex(&plain)), None);
+        }
+        match framed_size {
+            Ok(n) if n == f.len() => {}
+            other => return (format!("entry-points-differ under-a-pushed-buffer: vec={} size-calculator={:?}", f.len(), other.ok()), None),
+        }
+    }
     // both convenience entry points (Vec<u8> and BytesMut sinks) must agree
     let via_bytes = desert::serialize_to_bytes(&d);
+    // ... and the size calculator must report exactly the number of bytes written (or fail likewise)
+    let size = desert::serialize(&d, desert::SizeCalculator::new()).map(|sc| sc.size());
     match desert::serialize_to_byte_vec(&d) {
         Ok(bytes) => match via_bytes {
-            Ok(b) if b[..] == bytes[..] => (format!("ok {} {}", hex(&bytes), print_val(&d, false)), Some(bytes)),
+            Ok(b) if b[..] == bytes[..] => match size {
+                Ok(n) if n == bytes.len() => (format!("ok {} {}", hex(&bytes), print_val(&d, false)), Some(bytes)),
+                Ok(n) => (format!("entry-points-differ vec={} size-calculator={}", bytes.len(), n), None),
+                Err(e) => (format!("entry-points-differ vec=ok size-calculator=err {}", err_class(&e)), None),
+            },
             Ok(b) => (format!("entry-points-differ vec={} bytes={}", hex(&bytes), hex(&b)), None),
             Err(e) => (format!("entry-points-differ vec=ok bytes=err {}", err_class(&e)), None),
         },
